@@ -316,6 +316,10 @@ def run(tier, seed):
     rep.notes["bounds"] = {l: b for _, b, l in LOOP_FUNCS}
     rep.notes["not_covered"] = ["rem_pio2 (scalar fallback for huge trigonometric arguments): loops bounded by table sizes, not under contract here",
                                 "scalar ipow loop (xsimd_scalar.hpp:768): exponent halving, at most 64 iterations; batch pow(x, int) reaches it per lane"]
-    rep.assumptions += ["iteration bounds are discharged with --unwind K+1 --unwinding-assertions on the loop-carrying function (complete for the claim '<= K iterations')",
+    rep.assumptions += ["loop contracts: polynomial kernels (gammaln*, tgamma_kernel::compute), the fused multiply-adds and the public math functions called around the loops "
+                        "are opaque callees (trivial contract: some result, no side effect); their own termination is the loop inventory's claim",
+                        "lgamma loop contracts are proved on the function with its straight-line tail cut (ll2c cut_after_loops): blocks from which no loop is reachable return at once",
+                        "a failing loop obligation is reported without a replayed input (the verifier's loop-head state is not a function argument)",
+                        "lgamma: iteration bounds are also discharged with --unwind K+1 --unwinding-assertions on the fully inlined function (complete for the claim '<= K iterations'; plain CBMC, not a loop contract)",
                         "functions proved on architectures %s (the code is the architecture-independent generic kernel)" % archs]
     return special.finish_special(rep, "C14")
